@@ -37,19 +37,14 @@ PENDING_FINDINGS = [
      'what': 'a field marked introspectable="0" whose C type is not pointer-sized (e.g. `long double`, as '
              'g-ir-scanner writes it) is laid out as a gpointer: wrong positive size/offsets instead of '
              '"unknown" (girparser.c start_field replaces the type by gpointer)'},
-    {'key': 'inline-callback-field-then-function-like-member:taken-as-field-callback',
-     'what': 'in a <union>, <glib:boxed> or <interface>, the function-like element (<method>, <function>, <constructor>, '
-             'bare <callback>) that follows a <field><callback/></field> is attached to that field as its callback instead '
-             'of becoming a member: the field gets an embedded callback blob the container cannot hold, so every later '
-             'field of a union reads as garbage (wrong names / offsets), and a bare callback member disappears from the '
-             'layout (girparser.c start_function, branch added by b00e44e: ctx->current_typed is left pointing at the field)'},
 ]
-K_NONINTRO, K_CBSTALE = [p['key'] for p in PENDING_FINDINGS]
+(K_NONINTRO,) = [p['key'] for p in PENDING_FINDINGS]
 # repaired in /repo: 260587f (field offsets that do not fit 16 bits are stored as unknown), 1fcf299 (an enum with a
 # negative member and a member above G_MAXINT gets gint64), b00e44e (a function pointer member of a union / boxed
 # is a gpointer field instead of killing the compiler), 30f920b (a flexible array member is not a pointer: the
 # structure is recorded unknown).  Their witnesses stay in corpus/C08 as regressions and are judged like everything
-# else, with no suppression.
+# else, with no suppression.  5a4179a (b00e44e left ctx->current_typed dangling: the <method> / <callback> after such a
+# field was taken as the field's callback; found by this check's thorough tier): regression batch KCbThenMethod.
 
 # ---------------------------------------------------------------------------------------------
 # vocabulary: GIR basic type name -> C spelling used in the gcc translation unit.  The C side is
@@ -460,21 +455,6 @@ def member_flags(b, t, memo, depth=0):
     raise HarnessError('member_flags: %r' % (t,))
 
 
-def in_cbstale_class(b, d):
-    """pending finding K_CBSTALE: a function-like member directly after an inline callback field of a union / boxed
-    (also across the end of the container: the first member of the next type)"""
-    ms = d.get('members', [])
-    fun = ('barecb', 'method')
-    if d['d'] in ('union', 'boxed') and any(x['t']['k'] == 'cb' and y['t']['k'] in fun for x, y in zip(ms, ms[1:])):
-        return True
-    i = b.decls.index(d)
-    if i > 0 and ms and ms[0]['t']['k'] in fun:
-        p = b.decls[i - 1]
-        if p['d'] in ('union', 'boxed') and p.get('members') and p['members'][-1]['t']['k'] == 'cb':
-            return True
-    return False
-
-
 def decl_flags(b, name, memo, depth=0):
     if name in memo:
         return memo[name]
@@ -496,8 +476,6 @@ def decl_flags(b, name, memo, depth=0):
             fl |= member_flags(b, m['t'], memo, depth)
         if d['d'] == 'union' and any(m['t']['k'] == 'barecb' for m in d['members']):
             fl.add('barecb_union')
-        if in_cbstale_class(b, d):
-            fl.add('cbstale')
     memo[name] = fl
     return fl
 
@@ -1033,7 +1011,7 @@ class Runner(object):
         field_members = [m for m in d['members'] if m['t']['k'] not in ('barecb', 'method')]
         got = {'size': im.get('size'), 'align': im.get('align'), 'offsets': [f[1] for f in im['fields']]}
         if [f[0] for f in im['fields']] != [m['name'] for m in field_members]:
-            ctx.report_failure(K_CBSTALE if 'cbstale' in fl else 'fields:' + key_of(b, d), '%s.%s: typelib lists fields %r, declared %r' % (
+            ctx.report_failure('fields:' + key_of(b, d), '%s.%s: typelib lists fields %r, declared %r' % (
                 b.ns, name, [f[0] for f in im['fields']], [m['name'] for m in field_members]),
                 {'kind': 'decl', 'batch': dump_batch(b, [name]), 'name': name})
             return
@@ -1045,9 +1023,7 @@ class Runner(object):
             want = {'size': st['size'], 'align': st['align'], 'offsets': st['offsets']}
             if d['d'] == 'object':
                 want = {'size': None, 'align': None, 'offsets': st['offsets']}
-            if want != got and 'cbstale' in fl:
-                self.cnt.hit('%s:correspondence-not-judged:pending-%s' % (label, K_CBSTALE.split(':')[0]))
-            elif want != got:
+            if want != got:
                 self.corr('%s %s: typelib %r, model %r' % (d['d'], name, got, want), b, d)
         # validation of the trusted step "Spec.cLayout = the C compiler": Spec(b) vs gcc (c)
         plain = not (fl & {'flex', 'nonintro_value', 'nonintro_ptr', 'bits', 'barecb', 'barecb_union', 'enum64', 'abort'})
@@ -1123,9 +1099,7 @@ class Runner(object):
             mod['stored']['offsets'] == got['offsets'] and (d['d'] == 'object' or (mod['stored']['size'] == got['size']
                                                                                     and mod['stored']['align'] == got['align']))
         key = None
-        if 'cbstale' in fl:
-            key = K_CBSTALE
-        elif explained and 'nonintro_value' in fl:
+        if explained and 'nonintro_value' in fl:
             key = K_NONINTRO
         if key is not None:
             self.cnt.hit('%s:known-finding:%s:%s' % (label, key.split(':')[0], d['d']))
